@@ -6,6 +6,7 @@ from ..core import Result
 PID = "C04"
 LEVEL = "exploration"
 RULE = (
+    "One spec in three has lived before (warm start): another model edited in place into this one or swapped into the old project object, or the model's own run cut short by max_time and then continued with one of the unequal initialize-flag combinations (state carried over and logs restarted, or state reset and logs appended), or a first run that does not initialize the logs. A 'pinned' profile gives facility tasks both fixed-ID lists at once. "
     'Hypothesis-generated models with skills incl. 0 and missing keys, partial team/workplace targeting, solo flags on workers and facilities, fixed-ID lists (also lists naming nobody), absences. Oracle on every newly allocated worker/facility (allocated snapshot minus updated snapshot of the same step) against the static spec: positive skill, targeting team/workplace, not absent, inside fixed lists, pairs for facility tasks (equal counts, operable facility, new facility paired with new worker), no facility on tasks that need none, solo resources never combined. Non-trivial = some step where a task got a resource while an ineligible free worker existed (the filter discriminated); distinct by spec hash.'
 )
 ASSUMPTIONS = [
@@ -16,17 +17,24 @@ TECHNIQUE = 'property-based testing (Hypothesis): generated models, every alloca
 LEVEL_TEXT = 'Generated-input search: every allocation decision of every generated run is checked against an independent eligibility predicate on the spec; not a proof.'
 LEVEL_NOTE = 'Trusts the step observer and the builder.'
 
-CFG = gen.Cfg(warm=4, onesided=4, facilities=True, max_time=[40, 80], p_auto=12, abs_p=2, abs_size=6, abs_max=12)
+CFG = gen.Cfg(warm_modes=["morph", "graft", "carry", "append", "nolog"], warm=3, onesided=4, facilities=True, max_time=[40, 80], p_auto=12, abs_p=2, abs_size=6, abs_max=12)
+
+
+# "pinned": facility tasks that fix one facility (and often one or two workers) - both fixed-ID lists at once
+CFG_PIN = CFG.copy(p_fix=2, max_wps=2, max_facs_per_wp=2, max_comps=3, min_tasks=3, onesided=0)
 
 
 def strategy(tier):
+    from hypothesis import strategies as st
+
     cfg = CFG if tier == "quick" else CFG.copy(max_tasks=12, max_workers=8)
-    return gen.model_spec(cfg)
+    pin = CFG_PIN if tier == "quick" else CFG_PIN.copy(max_tasks=12, max_workers=6)
+    return st.one_of(gen.model_spec(cfg), gen.model_spec(cfg), gen.pinned_spec(pin))
 
 
 def budget(tier):
     if tier == "quick":
-        return {"cases": 2000, "shards": 4}
+        return {"cases": 3000, "shards": 6}
     return {"cases": 150000, "shards": 16}
 
 
